@@ -37,6 +37,9 @@ type jcase struct {
 	NetV  bool   `json:"netv"`
 	Point string `json:"point"`
 	Class string `json:"class"` // id layout of ring+joiner
+	// NilPred members (not the joiner's successor) have dropped their predecessor pointer before
+	// the join, as checkPredecessor does after a neighbour departed; nothing repairs it meanwhile
+	NilPred int `json:"nil_pred,omitempty"`
 }
 
 func runCases(raw json.RawMessage) (any, error) {
@@ -139,6 +142,19 @@ func runCase(c jcase, rep *batch.Report) batch.CaseResult {
 	srt := sortU(append([]uint64{}, ids...))
 	succOfJoiner := ringlab.OwnerOf(srt, joiner.ID)
 	predOfJoiner := ringlab.ExpectFor(srt, succOfJoiner).Pred
+	if c.NilPred > 0 {
+		var cand []*ringlab.Member
+		for _, m := range members {
+			if m.ID != succOfJoiner {
+				cand = append(cand, m)
+			}
+		}
+		rng.Shuffle(len(cand), func(i, j int) { cand[i], cand[j] = cand[j], cand[i] })
+		for i := 0; i < c.NilPred && i < len(cand); i++ {
+			cand[i].Node.VerifClearPredecessor()
+			rep.Count("members_probed_with_predecessor_dropped", 1)
+		}
+	}
 	var armed, passedSelf atomic.Bool
 	lab.On("join.finish.self", func(_ string, node uint64) {
 		if node == joiner.ID {
@@ -251,7 +267,7 @@ func runCase(c jcase, rep *batch.Report) batch.CaseResult {
 	rep.Count("probe_errors", errs)
 	if hit.Load() {
 		rep.Count("hook_hits_"+c.Point, 1)
-		res.Sig = fmt.Sprintf("%s/n%d/%s/netv=%v", c.Point, c.N, c.Class, c.NetV)
+		res.Sig = fmt.Sprintf("%s/n%d/%s/netv=%v/nilpred=%v", c.Point, c.N, c.Class, c.NetV, c.NilPred > 0)
 	} else if jerr == nil {
 		res.Inconclusive = "hook point " + c.Point + " was never reached by the joiner"
 	}
@@ -276,7 +292,7 @@ func main() {
 	child.Register("cases", runCases)
 	child.Main()
 	r := ev.Start("C09", "exploration")
-	r.SetRule("a node joins a stabilised ring of 1..8 real LocalNodes (random / adjacent / extreme ids, direct and proxied wiring); at the first occurrence of each of the 8 hook points of its join the join is blocked and 3 x (8+3N) lookups {0, 2^48-1, joiner id +-1, member ids +-1, PRNG ids} are issued concurrently to the joiner, its successor and its predecessor; distinct+non-trivial = (hook point, ring size, id layout, wiring) for cases in which the hook was reached")
+	r.SetRule("a node joins a stabilised ring of 1..8 real LocalNodes (random / adjacent / extreme ids, direct and proxied wiring); at the first occurrence of each of the 8 hook points of its join the join is blocked and 3 x (8+3N) lookups {0, 2^48-1, joiner id +-1, member ids +-1, PRNG ids} are issued concurrently to the joiner, its successor and its predecessor; periodic tasks are parked during the probed join (pointers move only through the join's own steps); in a third of the cases 1-2 other members have dropped their predecessor pointer beforehand (the state checkPredecessor leaves after a departure); distinct+non-trivial = (hook point, ring size, id layout, wiring, dropped predecessors) for cases in which the hook was reached")
 	r.Assume("bounded time is restated as bounded hops: 2(N+1)+48 proxied hops, or absence of a stack overflow with a 64 MiB stack limit in direct wiring; the 60 s wall-clock watchdog only yields inconclusive")
 	rng := r.Rand("cases")
 	reps := r.Pick(3, 40)
@@ -288,6 +304,9 @@ func main() {
 				c := jcase{Name: fmt.Sprintf("join-%d", i), Seed: rng.Int63(), N: 1 + rng.Intn(8), NetV: netv, Point: p, Class: []string{"random", "adjacent", "extremes"}[rng.Intn(3)]}
 				if c.Class == "extremes" && c.N > 4 {
 					c.N = 4
+				}
+				if c.N >= 3 && i%3 == 1 {
+					c.NilPred = 1 + i%2
 				}
 				i++
 				if r.WantCase(c.Name) {
